@@ -9,6 +9,8 @@
 #include <ArduinoJson.h>
 
 #include <algorithm>
+#include <functional>
+#include <memory>
 #include <string>
 #include <string_view>
 #include <vector>
@@ -423,8 +425,7 @@ inline std::string storageSig(JsonVariantConst v, int depth = 0) {  // outcome l
 // runs `body(doc)` on a fresh document over a ledger allocator, then observes and checks the stored strings.
 // `want` lists the strings expected when the source string was stored; entries equal to the source string
 // vanish when a copying kind must refuse it (longer than the maximum length).
-template <class Body>
-inline void freshDoc(Env& E, const Found& wantStored, Body body) {
+inline void freshDoc(Env& E, const Found& wantStored, const std::function<int(JsonDocument&)>& body) {
   LedgerAllocator A;
   {
     JsonDocument doc(&A);
@@ -504,6 +505,28 @@ inline void u_replaceSame(Env& E) {  // overwrites a value that already holds th
   freshDoc(E, w, [&](JsonDocument& doc) {
     if (E.src->n <= kMaxLen) doc["k"] = std::string(E.src->bytes); else doc["k"] = 0;
     bool ok = false; HXS_CALL(E, ok = doc["k"].set(x)); return int(ok); });
+}
+
+// copied neighbours (longer, NUL-extended, shorter) live in the same pool: de-duplication must be byte-exact
+inline void u_neighbours(Env& E) {
+  const std::string& s = E.src->bytes;
+  std::vector<std::string> before, after;
+  if (s.size() + 1 <= kMaxLen) { before.push_back(s + "x"); before.push_back(s + std::string(1, '\0')); }
+  if (!s.empty()) after.push_back(s.substr(0, s.size() - 1));
+  if (s.find('\0') != std::string::npos) after.push_back(s.substr(0, s.find('\0')));
+  after.push_back(s.size() + 1 <= kMaxLen ? s + "y" : std::string("y"));
+  Found w;
+  for (auto& b : before) w.emplace_back(false, b);
+  w.emplace_back(false, s);
+  for (auto& a : after) w.emplace_back(false, a);
+  freshDoc(E, w, [&](JsonDocument& doc) {
+    JsonArray arr = doc.to<JsonArray>();
+    for (auto& b : before) arr.add(b);
+    bool ok = false;
+    HXS_CALL(E, ok = arr.add(x));
+    for (auto& a : after) arr.add(a);
+    return int(ok);
+  });
 }
 
 // ---- the string as a KEY
@@ -607,8 +630,7 @@ inline int modelFind(const std::vector<Member>& m, const std::string& s) {
 }
 
 // call(doc, x) -> text of the result; kind: 'i' index (value or absent), 'b' boolean presence, 'r' removal
-template <class Call>
-inline void lookupUse(Env& E, char what, Call call) {
+inline void lookupUse(Env& E, char what, const std::function<std::string(JsonDocument&, Source&)>& call) {
   const std::string& s = E.src->bytes;
   for (int variant = 0; variant < 4; variant++) {
     bool withS = (variant & 1) == 0, linked = (variant & 2) != 0;
@@ -625,7 +647,7 @@ inline void lookupUse(Env& E, char what, Call call) {
       // a fresh source per variant when the run scrubs it
       std::unique_ptr<Source> local;
       if (E.scrubMode) { local.reset(new Source(src->kind, src->idx, src->pad)); E.src = local.get(); }
-      E.src->visit([&](auto& x) { res = call(doc, x); });
+      res = call(doc, *E.src);
       E.after();
       E.src = src;
       int at = modelFind(m, s);
@@ -649,7 +671,13 @@ inline void lookupUse(Env& E, char what, Call call) {
   }
 }
 #define HXS_LOOKUP(name, what, expr) \
-  inline void name(Env& E) { lookupUse(E, what, [](JsonDocument& doc, auto& x) -> std::string { (void)doc; return expr; }); }
+  inline void name(Env& E) {                                                                    \
+    lookupUse(E, what, [](JsonDocument& doc, Source& src) -> std::string {                      \
+      std::string res;                                                                          \
+      src.visit([&](auto& x) { res = expr; });                                                  \
+      return res;                                                                               \
+    });                                                                                         \
+  }
 HXS_LOOKUP(u_lkDoc, 'i', intOrNull(doc[x]))
 HXS_LOOKUP(u_lkConstDoc, 'i', intOrNull(static_cast<const JsonDocument&>(doc)[x]))
 HXS_LOOKUP(u_lkObj, 'i', intOrNull(doc.as<JsonObject>()[x]))
@@ -784,7 +812,8 @@ static const UseDef kUses[] = {
     {"v.docMember", u_docMember, false, false},     {"v.objMember", u_objMember, false, false},
     {"v.memberSet", u_memberSet, false, false},     {"v.docElement", u_docElement, false, false},
     {"v.elementSet", u_elementSet, false, false},   {"v.replaceCopied", u_replaceCopied, false, false},
-    {"v.replaceSame", u_replaceSame, false, false}, {"k.doc", u_keyDoc, false, false},
+    {"v.replaceSame", u_replaceSame, false, false}, {"v.neighbours", u_neighbours, true, false},
+    {"k.doc", u_keyDoc, false, false},
     {"k.obj", u_keyObj, false, false},              {"k.var", u_keyVar, false, false},
     {"k.objSet", u_keyObjSet, false, false},        {"k.docDoc", u_keyDocDoc, false, false},
     {"k.keyAndValue", u_keyAndValue, false, false}, {"k.toArray", u_keyToArray, false, false},
@@ -1088,6 +1117,7 @@ inline void phaseB(Ctx& C, const std::vector<int>& strings, int maxUsers, const 
         }
         if (!expressible) continue;
         for (int rot : rotations) {
+          if (si == S_MAX && rot >= 7) continue;  // 7 rotations put every kind at every position; enough for the 64 KiB string
           for (int m = 0; m < NMUTS; m++) {
             for (int j = 0; j < k; j++) {
               if ((m == M_NONE || m == M_COPY || m == M_REBUILD) && j > 0) continue;
@@ -1148,9 +1178,9 @@ inline void run(Ctx& C) {
   C.bound(std::string("strings {empty,a,ab,a\\0b,\\x80\\xff,42,-7.5,1e3,3.25,12345678901234567890,' 1',true,31 bytes,32 bytes") +
           (T ? ",65535 bytes,65536 bytes (refusal only)}" : "}") +
           " x 11 source kinds {literal,const char*,char*,char[N],std::string,string_view,JsonString Copied,JsonString(p,Linked),"
-          "JsonString(p),Arduino String,flash} x " + std::to_string(kNUses) + " uses (13 value, 10 key, 16 lookup x 4 populations, "
+          "JsonString(p),Arduino String,flash} x " + std::to_string(kNUses) + " uses (14 value, 10 key, 16 lookup x 4 populations, "
           "12 comparison operators x 2 sides x 5 variant flavours x operand set, 6 copy paths) x {plain, source overwritten, source destroyed}; "
-          "sharing grid: " + (T ? "2..3" : "2") + " users x 5 roles x 9 mutations x " + (T ? "28" : "2") + " kind rotations");
+          "sharing grid: " + (T ? "2..3" : "2") + " users x 5 roles x 9 mutations x " + (T ? "28 kind rotations (7 for the 65535-byte string)" : "2 kind rotations"));
 }
 
 }  // namespace hx_strings
